@@ -223,11 +223,103 @@ Proof.
     replace (length l - 0 - n)%nat with 0%nat by lia. reflexivity.
 Qed.
 
+(* ================================================================ option parsing keeps the block fields valid *)
+Definition opts_inv (s : cli_state) : Prop :=
+  4 <= fp_blockSizeID (prefs_of s 0) <= 7 /\ 1 <= io_blockSize (c_prefs s).
+
+Lemma cli_init_inv : opts_inv cli_init.
+Proof. unfold opts_inv. vm_compute. repeat split; discriminate. Qed.
+
+Lemma parse_arg_inv s a s' : opts_inv s -> parse_arg s a = Some s' -> opts_inv s'.
+Proof.
+  unfold opts_inv. cbn [prefs_of fp_blockSizeID]. intros [Hid Hbs] H.
+  destruct a; cbn [parse_arg] in H;
+    try (inversion H; subst; cbn; split; assumption).
+  - (* --fast[=n] *)
+    destruct n as [n|]; [destruct (n =? 0); [discriminate|]|]; inversion H; subst; cbn; split; assumption.
+  - (* -B# *)
+    rename n into b.
+    destruct (b <? 4) eqn:E4; [discriminate|].
+    destruct (b <=? 7) eqn:E7.
+    + inversion H; subst. destruct (blocksize_id_map (c_prefs s) b ltac:(lia)) as [E _].
+      rewrite E. cbn. split; [lia|].
+      assert (HI : b = 4 \/ b = 5 \/ b = 6 \/ b = 7) by lia.
+      destruct HI as [ E1 | [ E1 | [ E1 | E1 ] ] ]; rewrite E1; vm_compute; discriminate.
+    + destruct (b <? 32) eqn:E32; [discriminate|].
+      destruct (blocksize_map (c_prefs s) b ltac:(lia)) as [p' [E [Hs [_ [Hi _]]]]].
+      rewrite E in H. inversion H; subst. cbn. split; [exact Hi|].
+      rewrite Hs. unfold clamp_block_size. change CLI_MIN_BLOCKSIZE with 32. change CLI_MAX_BLOCKSIZE with 4194304. lia.
+Qed.
+
+Lemma parse_args_inv : forall args s s', opts_inv s -> parse_args s args = Some s' -> opts_inv s'.
+Proof.
+  induction args as [|a r IH]; intros s s' Hi H; cbn [parse_args] in H.
+  - inversion H; subst; exact Hi.
+  - destruct (parse_arg s a) as [s1|] eqn:E; [|discriminate].
+    apply (IH s1 s'); [apply (parse_arg_inv s a s1 Hi E)|exact H].
+Qed.
+
 (* ================================================================ the pipelines *)
 Lemma take4_app (a r : list byte) : length a = 4%nat -> take 4 (a ++ r) = Some (a, r).
 Proof. intros H. rewrite <- H. apply take_app. Qed.
 Lemma window_is_prefix : Z.to_nat PREFIX = 65536%nat.
 Proof. reflexivity. Qed.
+
+(* ---- vocabulary of the contracts ---- *)
+(* [B] is a sequence of data blocks that takes a decoder which has produced [acc] to [acc ++ c] *)
+Definition extends (bdec : list byte -> list byte -> option (list byte)) (skipcrc : bool)
+           (D : fdesc) (maxb : Z) (dict acc B c : list Z) : Prop :=
+  exists nb : nat, (nb <= length B)%nat /\
+    forall fuel rest, blocks bdec skipcrc (nb + fuel) D maxb dict acc (B ++ rest)
+                    = blocks bdec skipcrc fuel D maxb dict (acc ++ c) rest.
+
+(* the frame descriptor the preferences ask for *)
+Definition desc_of (p : lz4f_prefs) : fdesc :=
+  mkDesc (negb (linked p)) (negb (fp_blockChecksum p =? 0))
+         (if fp_contentSize p =? 0 then None else Some (fp_contentSize p))
+         (negb (fp_contentChecksum p =? 0)) None (fp_blockSizeID p).
+(* what the CLI guarantees about the preferences it hands over (theorem cli_prefs_valid) *)
+Definition valid_prefs (p : lz4f_prefs) (content : list Z) : Prop :=
+  4 <= fp_blockSizeID p <= 7 /\ (fp_contentSize p = 0 \/ fp_contentSize p = lenZ content).
+
+Definition header_ok (hdr : list Z) (D : fdesc) (maxb : Z) : Prop :=
+  bsid_size (f_bsid D) = Some maxb /\
+  forall rest, exists mg r, take 4 (hdr ++ rest) = Some (mg, r) /\ le_val mg = MAGIC /\
+                            parse_desc r = Some (D, rest).
+Definition frame_tail (D : fdesc) (content : list Z) : list Z :=
+  le_bytes 4 0 ++ (if f_ccrc D then le_bytes 4 (xxh32 0 content) else []).
+
+(* ---- contracts of the library operations (they are properties C07, C03, C01) ---- *)
+(* C07: LZ4F_compressBegin writes a header the specification parses back to the requested descriptor *)
+Definition header_contract (LZ4F_header : lz4f_prefs -> list Z) : Prop :=
+  forall p, 4 <= fp_blockSizeID p <= 7 -> exists maxb, header_ok (LZ4F_header p) (desc_of p) maxb.
+(* C03 at block granularity: the blocks produced by one LZ4F_compressUpdate of a session begun with
+   dictionary/prefix [d] that already consumed [prev] are decoded to the input by a decoder whose
+   descriptor agrees on block mode / block checksum / block size and whose 64 KB history window is the
+   compressor's (linked blocks), resp. whose dictionary is the compressor's (independent blocks) *)
+Definition update_contract bdec skipcrc (LZ4F_update : lz4f_prefs -> list Z -> list (list Z) -> list Z -> list Z) : Prop :=
+  forall p D maxb d prev c dict acc,
+    f_indep D = negb (linked p) -> f_bcrc D = negb (fp_blockChecksum p =? 0) ->
+    f_bsid D = fp_blockSizeID p -> bsid_size (f_bsid D) = Some maxb ->
+    (if linked p then lastn 65536 (d ++ concat prev) = lastn 65536 (dict ++ acc) else d = dict) ->
+    extends bdec skipcrc D maxb dict acc (LZ4F_update p d prev c) c.
+(* C07: LZ4F_compressEnd = end mark ++ optional content checksum of everything consumed *)
+Definition end_contract (LZ4F_end : lz4f_prefs -> list Z -> list Z) : Prop :=
+  forall p content, LZ4F_end p content = frame_tail (desc_of p) content.
+(* C03: one-shot frames decode to their input *)
+Definition frame_contract bdec skipcrc (LZ4F_frame : lz4f_prefs -> list Z -> list Z -> list Z) : Prop :=
+  forall p dict content, valid_prefs p content ->
+    frame_decode bdec skipcrc dict (LZ4F_frame p dict content) = Some (content, []).
+(* C01: block compressors round-trip and respect LZ4_compressBound *)
+Definition block_contract (bdec : list byte -> list byte -> option (list byte)) (LZ4_block : Z -> list Z -> list Z) : Prop :=
+  forall level c, lenZ c <= LEGACY_BLOCKSIZE ->
+    bdec [] (LZ4_block level c) = Some c /\ lenZ (LZ4_block level c) <= LZ4IO_LEGACY_BOUND.
+(* C13 (theorem C13_write_order = Proofs/WriteRegProofs.v write_order): whatever the order in which the
+   jobs' results reach the write register, the buffers handed to fwrite are the results in rank order *)
+Definition write_order_contract (wr : list (Z * list Z) -> list (list Z)) : Prop :=
+  forall (blks : list (list Z)) (perm : list nat),
+    Permutation perm (List.seq 0 (length blks)) ->
+    wr (map (fun i => (Z.of_nat i, nth i blks [])) perm) = blks.
 
 Section PipelineProofs.
   (* the block decoder and checksum switch of the frame specification (any instance) *)
@@ -240,48 +332,13 @@ Section PipelineProofs.
   Variable LZ4F_end : lz4f_prefs -> list Z -> list Z.
   Variable LZ4_block : Z -> list Z -> list Z.
 
-  (* [B] is a sequence of data blocks that takes a decoder which has produced [acc] to [acc ++ c] *)
-  Definition extends (D : fdesc) (maxb : Z) (dict acc B c : list Z) : Prop :=
-    exists nb : nat, (nb <= length B)%nat /\
-      forall fuel rest, blocks bdec skipcrc (nb + fuel) D maxb dict acc (B ++ rest)
-                      = blocks bdec skipcrc fuel D maxb dict (acc ++ c) rest.
+  Hypothesis H_header : header_contract LZ4F_header.
+  Hypothesis H_update : update_contract bdec skipcrc LZ4F_update.
+  Hypothesis H_end : end_contract LZ4F_end.
+  Hypothesis H_frame : frame_contract bdec skipcrc LZ4F_frame.
+  Hypothesis H_block : block_contract bdec LZ4_block.
 
-  (* the frame descriptor the preferences ask for *)
-  Definition desc_of (p : lz4f_prefs) : fdesc :=
-    mkDesc (negb (linked p)) (negb (fp_blockChecksum p =? 0))
-           (if fp_contentSize p =? 0 then None else Some (fp_contentSize p))
-           (negb (fp_contentChecksum p =? 0)) None (fp_blockSizeID p).
-  Definition valid_prefs (p : lz4f_prefs) (content : list Z) : Prop :=
-    4 <= fp_blockSizeID p <= 7 /\ (fp_contentSize p = 0 \/ fp_contentSize p = lenZ content).
-
-  Definition header_ok (hdr : list Z) (D : fdesc) (maxb : Z) : Prop :=
-    bsid_size (f_bsid D) = Some maxb /\
-    forall rest, exists mg r, take 4 (hdr ++ rest) = Some (mg, r) /\ le_val mg = MAGIC /\
-                              parse_desc r = Some (D, rest).
-  Definition frame_tail (D : fdesc) (content : list Z) : list Z :=
-    le_bytes 4 0 ++ (if f_ccrc D then le_bytes 4 (xxh32 0 content) else []).
-
-  (* ---- contracts of the library, assumed here (they are properties C07, C03, C01) ---- *)
-  (* C07: LZ4F_compressBegin writes a header the specification parses back to the requested descriptor *)
-  Hypothesis H_header : forall p, 4 <= fp_blockSizeID p <= 7 ->
-    exists maxb, header_ok (LZ4F_header p) (desc_of p) maxb.
-  (* C03 at block granularity: the blocks produced by one LZ4F_compressUpdate of a session begun with
-     dictionary/prefix [d] that already consumed [prev] are decoded to the input by a decoder whose
-     descriptor agrees on block mode / block checksum / block size and whose history window is the
-     compressor's (linked blocks), resp. whose dictionary is the compressor's (independent blocks) *)
-  Hypothesis H_update : forall p D maxb d prev c dict acc,
-    f_indep D = negb (linked p) -> f_bcrc D = negb (fp_blockChecksum p =? 0) ->
-    f_bsid D = fp_blockSizeID p -> bsid_size (f_bsid D) = Some maxb ->
-    (if linked p then lastn 65536 (d ++ concat prev) = lastn 65536 (dict ++ acc) else d = dict) ->
-    extends D maxb dict acc (LZ4F_update p d prev c) c.
-  (* C07: LZ4F_compressEnd = end mark ++ optional content checksum of everything consumed *)
-  Hypothesis H_end : forall p content, LZ4F_end p content = frame_tail (desc_of p) content.
-  (* C03: one-shot frames decode to their input *)
-  Hypothesis H_frame : forall p dict content, valid_prefs p content ->
-    frame_decode bdec skipcrc dict (LZ4F_frame p dict content) = Some (content, []).
-  (* C01: block compressors round-trip and respect LZ4_compressBound *)
-  Hypothesis H_block : forall level c, lenZ c <= LEGACY_BLOCKSIZE ->
-    bdec [] (LZ4_block level c) = Some c /\ lenZ (LZ4_block level c) <= LZ4IO_LEGACY_BOUND.
+  Notation extends := (extends bdec skipcrc).
 
   Lemma extends_nil D maxb dict acc : extends D maxb dict acc [] [].
   Proof. exists 0%nat. split; [cbn; lia|]. intros fuel rest. cbn [Nat.add app]. rewrite app_nil_r. reflexivity. Qed.
@@ -437,9 +494,7 @@ Section PipelineProofs.
      [wr] is the write register; its in-order property is property C13 (theorem C13_write_order,
      Proofs/WriteRegProofs.v write_order, of the MT pipeline model), taken here as hypothesis. *)
   Variable wr : list (Z * list Z) -> list (list Z).
-  Hypothesis C13_write_order : forall (blks : list (list Z)) (perm : list nat),
-    Permutation perm (List.seq 0 (length blks)) ->
-    wr (map (fun i => (Z.of_nat i, nth i blks [])) perm) = blks.
+  Hypothesis C13_write_order : write_order_contract wr.
 
   Theorem mt_deterministic (p : lz4f_prefs) (dict content : list Z) (nbWorkers : Z) (order : list nat) :
     1 <= nbWorkers ->
@@ -562,4 +617,50 @@ Section PipelineProofs.
     - apply chunks_le. lia.
     - lia.
   Qed.
+
+  (* ---------------------------------------------------------------- the whole CLI, every option list *)
+  Theorem cli_roundtrip (mt : bool) (args : list arg) (s : cli_state) (fileSize : Z) (dict content : list Z) :
+    parse_args cli_init args = Some s ->                 (* any accepted list of modelled switches *)
+    (fileSize = 0 \/ fileSize = lenZ content) ->         (* size unknown (pipe) or the real size *)
+    let F := cli_compress LZ4F_header LZ4F_frame LZ4F_update LZ4F_end LZ4_block mt s fileSize dict content in
+    stream_decode bdec skipcrc (S (length F)) dict [] F = Some content.
+  Proof.
+    intros Hp Hsz. cbv zeta. unfold cli_compress.
+    pose proof (parse_args_inv args cli_init s cli_init_inv Hp) as [Hid Hbs].
+    destruct (c_legacy s); [apply legacy_roundtrip|].
+    assert (Hv : valid_prefs (prefs_of s fileSize) content).
+    { split; [exact Hid|]. cbn [prefs_of fp_contentSize].
+      destruct (io_contentSizeFlag (c_prefs s) =? 0); [left; reflexivity|]. destruct Hsz as [E|E]; [left|right]; exact E. }
+    destruct mt; [apply mt_roundtrip; exact Hv|apply st_roundtrip; [exact Hbs|exact Hv]].
+  Qed.
 End PipelineProofs.
+
+(* ================================================================ satisfiability of the C13 hypothesis *)
+(* a reference write register: look every rank up among the arrivals *)
+Definition wr_ref (arr : list (Z * list Z)) : list (list Z) :=
+  map (fun i => match find (fun x => fst x =? Z.of_nat i) arr with Some x => snd x | None => [] end)
+      (List.seq 0 (length arr)).
+
+Lemma find_rank (blks : list (list Z)) i : forall perm, In i perm ->
+  find (fun x => fst x =? Z.of_nat i) (map (fun j => (Z.of_nat j, nth j blks [])) perm)
+  = Some (Z.of_nat i, nth i blks []).
+Proof.
+  induction perm as [|j r IH]; intros Hin; [destruct Hin|].
+  cbn [map find fst]. destruct (Z.of_nat j =? Z.of_nat i) eqn:E.
+  - apply Z.eqb_eq in E. apply Nat2Z.inj in E. subst j. reflexivity.
+  - apply IH. destruct Hin as [H|H]; [subst j; rewrite Z.eqb_refl in E; discriminate|exact H].
+Qed.
+
+Lemma wr_ref_in_order : write_order_contract wr_ref.
+Proof.
+  intros blks perm HP. unfold wr_ref. rewrite map_length.
+  assert (Hl : length perm = length blks) by (rewrite (Permutation_length HP); apply seq_length).
+  rewrite Hl.
+  apply nth_ext with (d := []) (d' := []); [rewrite map_length, seq_length; reflexivity|].
+  intros i Hi. rewrite map_length, seq_length in Hi.
+  set (f := fun i0 : nat => match find _ _ with Some x => snd x | None => [] end).
+  rewrite (nth_indep _ [] (f 0%nat)) by (rewrite map_length, seq_length; exact Hi).
+  rewrite map_nth, seq_nth by exact Hi. cbn [Nat.add]. unfold f.
+  rewrite find_rank; [reflexivity|].
+  apply (Permutation_in i (Permutation_sym HP)). apply in_seq. lia.
+Qed.
